@@ -378,8 +378,10 @@ class SelectedMailbox:
         session_flags = self.session_flags
         permanent_flag_set = self.permanent_flags & flag_set
         session_flag_set = session_flags & flag_set
+        flags_key_map = self._messages._flags_key_map
         for _, msg in self._messages.get_all(seq_set):
-            msg_flags = msg.permanent_flags
+            # the flags as last synchronized, not the backend's live object
+            _, msg_flags = flags_key_map[msg.uid]
             msg_sflags = session_flags.get(msg.uid)
             updated_flags = flag_op.apply(msg_flags, permanent_flag_set)
             updated_sflags = flag_op.apply(msg_sflags, session_flag_set)
